@@ -122,6 +122,11 @@ func rpcServerChild(seed int64, nreq int) {
 		if !ts.allHealthy("startup") {
 			return
 		}
+		// the request-size family (s_rpcserver_oversize.go): requests around the advertised limit, with and without an
+		// announced length, on both HTTP transports - every run
+		if !rpcOversize(ts, seed) {
+			return
+		}
 		addr := g.User1.Address.String()
 		valid := []string{
 			`{"jsonrpc":"2.0","id":1,"method":"ledger.getMomentumsByPage","params":[0,10]}`,
